@@ -5,31 +5,61 @@
    function calls with the exact pass and the Maybe pass, COALESCE, CAST; [pwt]: local well-typedness of a
    physical expression), Gen/GenFunctions.v (the descriptor table generated from FunctionMap()).
 
-   FULL STATEMENT (kept here; only partly proved, see C08_expr_partial):
-     forall env e pe ctx v,  tc type_inter_aliasing function_table env e = TcOk pe -> ctx_conforms ctx env = true ->
-                             peval ctx pe = Ok v -> has_type v (ptype pe) = true
-     and the same for aggregates (logical/group_by.go) and whole plans (outer-join nullability).
-   PROVED: the statement with "pe is locally well-typed (pwt env pe = true)" in place of "tc produced pe", for
-   every physical expression; plus, per row of the generated table, that the declared OutputType allows what the
-   modelled body returns.  MISSING: the lemma  tc ... = TcOk pe -> pwt env pe = true  (in particular for the
-   Maybe pass with accumulated assertions); it is CHECKED instead, on every run, for every physical expression
-   the real typechecker produces on the generated cases (check tie_pwt), and [tc] itself is compared with the
-   real typechecker node by node (check tie_tc).  Aggregates, plans, List/Struct/Tuple element types and the
-   unmodelled function bodies (float arithmetic, string and time functions: listed by
-   [filter (fun d => negb (desc_claimed d)) function_table]) are not covered by a theorem; the engine checks
-   value-against-type for them on the implementation only. *)
-From Octo Require Import Expr ExprProofs ExprTc ExprTcProofs ExprTcTableProofs GenFunctions.
+   PROVED IN FULL for the modelled expression language: C08_expr — everything the typechecker model accepts
+   evaluates, on a conforming row, to a value its static type allows, or fails.  The proof goes through the
+   decidable local well-typedness check [pwt]: C08_tc_well_typed (tc only produces pwt expressions; includes the
+   Maybe pass with its accumulated assertions and both behaviours of TypeIntersection) and C08_expr_pwt (pwt
+   expressions are sound; formerly C08_expr_partial).  [tc] itself is compared with the real typechecker node by
+   node on every generated case (check tie_tc), and pwt is re-run on the real typechecker's output (tie_pwt).
+   BODIES: 28 descriptor bodies are modelled exactly; 47 more (float arithmetic and transcendental functions,
+   string / regexp / time functions, conversions, in / not in / len on collections) are modelled ABSTRACTLY: by the
+   kinds of value they may return (hand-written per body in Model/Expr.v body_of, e.g. sqrt -> [Float],
+   position -> [NULL; Int]) and the number of arguments they read; the value itself comes from an oracle [orc]
+   (descriptor, argument values -> result).  Every theorem here holds FOR EVERY ORACLE: apply_body checks the
+   returned value against the declared kinds, so nothing is assumed about the oracle.  In the differential run the
+   oracle of a case is the list of calls the real bodies made while evaluating that case (recorded by the engine),
+   so the tie compares the full result of every expression and, per call, that the real body's result kind and
+   NULL-ness are within the abstract model.  C08_descriptors then says, per table row, that the declared
+   OutputType allows every kind the (exact or abstract) body model returns: 75 of 76 rows are claimed; the
+   exception is "[]" (list indexing: element types are not modelled).
+   STILL PARTIAL, stated here: (a) that a real body stays within its abstract kinds is checked per generated case,
+   not proved (the bodies are Go library code: math.Sqrt, strconv, regexp, time); (b) aggregates and whole plans
+   (outer-join nullability) have no theorem — the engine's query slice checks GROUP BY outputs against the reported
+   schema per case; the missing theorem is C08_aggregate: for every row of an aggregate table generated from
+   aggregates.Aggregates and every input typing tin, agg_typing row tin = Some tout -> for every group of values
+   conforming to tin, has_type (group_output row group) tout (group_output = NULL when no non-NULL value was
+   aggregated, else a value of the declared output kinds); (c) static types are sets of top-level TypeIDs:
+   List/Struct/Tuple element types are not modelled in has_type. *)
+From Octo Require Import Expr ExprProofs ExprTc ExprTcProofs ExprTcProofs2 ExprTcTableProofs GenFunctions.
 From Octo Require Import ExprTcCases.   (* the case formats / oracles of the engine's cases.v: kept built with this file *)
 
-(* A locally well-typed physical expression, evaluated on a variable context whose current record conforms to
-   the column types, yields a value its static type allows — or fails (error / panic), never an ill-typed
-   value.  In particular NULL only if the static type allows NULL.  All expressions of the modelled language,
-   any depth, any argument count; calls only of descriptors whose body is modelled (pwt requires it). *)
-Theorem C08_expr_partial : forall env ctx e v,
+(* THE PROPERTY, expression level: for every column typing env, every logical expression e of the modelled
+   language (constants, columns, AND, OR, function calls resolved against the generated descriptor table by the
+   exact pass or the Maybe pass, COALESCE, CAST; any depth), if the typechecker accepts e and produces the
+   physical expression pe (whose static type is ptype pe — what --describe reports for the column), then on every
+   variable context whose current record conforms to env, evaluation of pe yields a value that ptype pe allows —
+   in particular NULL only if the type allows NULL — or it fails (error / panic).  Holds for either behaviour
+   of TypeIntersection (al).  The translator says which one the tree has: type_inter_aliasing. *)
+Theorem C08_expr : forall orc al env e pe ctx v,
+  tc al function_table env e = TcOk pe -> ctx_conforms ctx env = true ->
+  peval orc ctx pe = Ok v -> has_type v (ptype pe) = true.
+Proof. exact table_tc_sound. Qed.
+Print Assumptions C08_expr.
+
+(* The typechecker model only produces locally well-typed physical expressions. *)
+Theorem C08_tc_well_typed : forall al env e pe,
+  tc al function_table env e = TcOk pe -> pwt env pe = true.
+Proof. exact table_tc_pwt. Qed.
+Print Assumptions C08_tc_well_typed.
+
+(* A locally well-typed physical expression (whoever produced it: this is what is re-checked on the REAL
+   typechecker's output on every case), evaluated on a conforming row, yields a value its static type allows,
+   or fails.  (Formerly C08_expr_partial.) *)
+Theorem C08_expr_pwt : forall orc env ctx e v,
   ctx_conforms ctx env = true -> pwt env e = true ->
-  peval ctx e = Ok v -> has_type v (ptype e) = true.
-Proof. intros env ctx e v Hc W. exact (pwt_sound env ctx Hc e W v). Qed.
-Print Assumptions C08_expr_partial.
+  peval orc ctx e = Ok v -> has_type v (ptype e) = true.
+Proof. intros orc env ctx e v Hc W. exact (pwt_sound orc env ctx Hc e W v). Qed.
+Print Assumptions C08_expr_pwt.
 
 (* One obligation per row of the generated table: for every descriptor whose body is modelled, the declared
    OutputType allows every kind of value the body can return (for int(Int) / float(Float), which return their
@@ -42,20 +72,20 @@ Print Assumptions C08_descriptors.
 (* A call typed the way FunctionExpression.Typecheck types it — OutputType of the chosen descriptor, plus NULL
    when the descriptor is Strict and some argument's static type allows NULL — is sound for every modelled
    fixed-kind descriptor of the table, whatever the (well-typed) arguments are. *)
-Theorem C08_call : forall env ctx d args ks,
-  In d function_table -> desc_modelled d = true -> body_result_kinds (body_of d) = Some ks ->
+Theorem C08_call : forall orc env ctx d args ks,
+  In d function_table -> desc_modelled d = true -> body_result_kinds (body_of no_oracle d) = Some ks ->
   ctx_conforms ctx env = true -> forallb (pwt env) args = true ->
-  forall v, peval ctx (PCall (nullable_wrap d args (fd_out d)) d args) = Ok v ->
+  forall v, peval orc ctx (PCall (nullable_wrap d args (fd_out d)) d args) = Ok v ->
             has_type v (nullable_wrap d args (fd_out d)) = true.
 Proof. exact table_call_sound. Qed.
 Print Assumptions C08_call.
 
 (* "Functions whose declared result is non-nullable never return NULL": a modelled descriptor of the table
    whose OutputType does not allow NULL returns a non-NULL value on non-NULL arguments. *)
-Theorem C08_non_nullable_result : forall ctx d args vs v t,
+Theorem C08_non_nullable_result : forall orc ctx d args vs v t,
   In d function_table -> desc_modelled d = true -> has_kind K_NULL (fd_out d) = false ->
-  pevals ctx args = Ok vs -> Forall (fun x => is_null x = false) vs ->
-  peval ctx (PCall t d args) = Ok v -> is_null v = false.
+  pevals orc ctx args = Ok vs -> Forall (fun x => is_null x = false) vs ->
+  peval orc ctx (PCall t d args) = Ok v -> is_null v = false.
 Proof. exact table_non_nullable_result. Qed.
 Print Assumptions C08_non_nullable_result.
 
@@ -78,5 +108,5 @@ Example C08_hypotheses_satisfiable :
   let e := LAnd (LCall ">" [LCall "+" [LVar 0; LConst (VInt 1)]; LConst (VInt 2)]) (LVar 1) in
   exists pe, tc type_inter_aliasing function_table env e = TcOk pe /\ pwt env pe = true /\ pmodelled pe = true /\
              sty_eqb (ptype pe) (STSet [0; 3]) = true /\
-             ctx_conforms [[VNull; VBool true]] env = true /\ peval [[VNull; VBool true]] pe = Ok VNull.
+             ctx_conforms [[VNull; VBool true]] env = true /\ peval no_oracle [[VNull; VBool true]] pe = Ok VNull.
 Proof. eexists. split; [vm_compute; reflexivity|]. vm_compute. repeat split; reflexivity. Qed.
